@@ -26,9 +26,9 @@ Definition graph_wf (s : shape) : Prop :=
   | _ => True
   end.
 
-Lemma created_wf f g : create f g = Created -> graph_wf (g_shape g) -> shape_wf (g_shape g).
+Lemma created_wf f g : vg_create f g = Created -> graph_wf (g_shape g) -> shape_wf (g_shape g).
 Proof.
-  unfold create. destruct (fmt_ok _ _); cbn [negb]; [|discriminate].
+  unfold vg_create. destruct (fmt_ok _ _); cbn [negb]; [|discriminate].
   destruct (g_shape g) as [|ranges|kind n k|adj R|succ b|adj|n m|n m]; cbn [graph_wf shape_wf]; intros H G; auto.
   - destruct ranges as [|r t]; [discriminate|]. cbn [length Nat.eqb] in H.
     destruct (forallb _ (r :: t)) eqn:E; [|discriminate]. split; [discriminate|].
@@ -59,86 +59,86 @@ Proof.
 Qed.
 
 (* ---------- the invariant of C10 ---------- *)
-Definition inv (st : vstate) : Prop := 0 <= numvar st /\ max_var (clauses st) <= numvar st.
+Definition inv (st : vstate) : Prop := 0 <= st_numvar st /\ max_var (st_clauses st) <= st_numvar st.
 
 (* the side condition: an unchecked insertion mentions only declared variables;
    a checked insertion is one the code accepts (no literal 0) *)
 Definition op_ok (f : variant) (st : vstate) (o : op) : Prop :=
   match o with
-  | AddClause c true => fixD34 f = true \/ lits_ok c = true
-  | AddClause c false => max_var_clause c <= numvar st
+  | OpAddClause c true => fixD34 f = true \/ lits_ok c = true
+  | OpAddClause c false => max_var_clause c <= st_numvar st
   | _ => True
   end.
 
 Fixpoint ops_ok (f : variant) (st : vstate) (ops : list op) : Prop :=
   match ops with
   | [] => True
-  | o :: t => op_ok f st o /\ ops_ok f (fst (step f st o)) t
+  | o :: t => op_ok f st o /\ ops_ok f (fst (vm_step f st o)) t
   end.
 
 Lemma add_group_facts st off g st' out : add_variable_group st off g = (st', out) ->
-  clauses st' = clauses st /\ numvar st <= numvar st' /\
-  (out = ValueError /\ st' = st \/
-   out = Allocated off /\ groups st' = groups st ++ [(off, g)] /\
-   (gsize (g_shape g) = 0 /\ numvar st' = numvar st \/
-    gsize (g_shape g) <> 0 /\ numvar st < off + 1 /\ numvar st' = Z.max (numvar st) (off + gsize (g_shape g)))).
+  st_clauses st' = st_clauses st /\ st_numvar st <= st_numvar st' /\
+  (out = VmValueError /\ st' = st \/
+   out = VmAllocated off /\ st_groups st' = st_groups st ++ [(off, g)] /\
+   (gsize (g_shape g) = 0 /\ st_numvar st' = st_numvar st \/
+    gsize (g_shape g) <> 0 /\ st_numvar st < off + 1 /\ st_numvar st' = Z.max (st_numvar st) (off + gsize (g_shape g)))).
 Proof.
   unfold add_variable_group. destruct (Z.eqb_spec (gsize (g_shape g)) 0) as [E|E].
   - intros Hq. injection Hq as <- <-. cbn. split; [reflexivity|]. split; [lia|]. right. auto.
-  - destruct (Z.leb_spec (off + 1) (numvar st)); intros Hq; injection Hq as <- <-.
+  - destruct (Z.leb_spec (off + 1) (st_numvar st)); intros Hq; injection Hq as <- <-.
     + split; [reflexivity|]. split; [lia|]. left. auto.
     + cbn. split; [reflexivity|]. split; [lia|]. right. split; [reflexivity|]. split; [reflexivity|]. right. split; [exact E|]. split; [lia|reflexivity].
 Qed.
 
-Lemma step_numvar_mono f st o : numvar st <= numvar (fst (step f st o)).
+Lemma step_numvar_mono f st o : st_numvar st <= st_numvar (fst (vm_step f st o)).
 Proof.
-  destruct o as [g|c chk|k]; cbn [step].
-  - destruct (create (fixD2 f) g); cbn [fst]; try lia.
-    destruct (add_variable_group st (numvar st) g) as [st' out] eqn:E. apply add_group_facts in E. cbn [fst]. lia.
+  destruct o as [g|c chk|k]; cbn [vm_step].
+  - destruct (vg_create (fixD2 f) g); cbn [fst]; try lia.
+    destruct (add_variable_group st (st_numvar st) g) as [st' out] eqn:E. apply add_group_facts in E. cbn [fst]. lia.
   - destruct chk; [destruct (lits_ok c); [|destruct (fixD34 f)]|]; cbn; lia.
   - destruct (k <? 0); cbn; lia.
 Qed.
 
-Theorem inv_step f st o : inv st -> op_ok f st o -> inv (fst (step f st o)).
+Theorem inv_step f st o : inv st -> op_ok f st o -> inv (fst (vm_step f st o)).
 Proof.
-  intros [H0 H1] Hok. destruct o as [g|c chk|k]; cbn [step].
-  - destruct (create (fixD2 f) g); cbn [fst]; try (split; assumption).
-    destruct (add_variable_group st (numvar st) g) as [st' out] eqn:E. apply add_group_facts in E as [Ec [En _]]. cbn [fst].
+  intros [H0 H1] Hok. destruct o as [g|c chk|k]; cbn [vm_step].
+  - destruct (vg_create (fixD2 f) g); cbn [fst]; try (split; assumption).
+    destruct (add_variable_group st (st_numvar st) g) as [st' out] eqn:E. apply add_group_facts in E as [Ec [En _]]. cbn [fst].
     unfold inv. rewrite Ec. lia.
   - destruct chk; cbn [op_ok] in Hok.
     + destruct (lits_ok c) eqn:El.
-      * cbn [fst]. unfold inv. cbn [numvar clauses]. rewrite max_var_app. lia.
+      * cbn [fst]. unfold inv. cbn [st_numvar st_clauses]. rewrite max_var_app. lia.
       * destruct Hok as [Hok|Hok]; [|discriminate]. rewrite Hok. cbn [fst]. split; assumption.
-    + cbn [fst]. unfold inv. cbn [numvar clauses]. rewrite max_var_app. lia.
-  - destruct (Z.ltb_spec k 0); cbn [fst]; unfold inv; cbn [numvar clauses]; lia.
+    + cbn [fst]. unfold inv. cbn [st_numvar st_clauses]. rewrite max_var_app. lia.
+  - destruct (Z.ltb_spec k 0); cbn [fst]; unfold inv; cbn [st_numvar st_clauses]; lia.
 Qed.
 
-Theorem inv_run f : forall ops st, inv st -> ops_ok f st ops -> inv (run f st ops).
+Theorem inv_run f : forall ops st, inv st -> ops_ok f st ops -> inv (vm_run f st ops).
 Proof.
   induction ops as [|o t IH]; intros st Hi Hok; [exact Hi|].
-  destruct Hok as [H1 H2]. unfold run. cbn [fold_left]. apply IH; [now apply inv_step|exact H2].
+  destruct Hok as [H1 H2]. unfold vm_run. cbn [fold_left]. apply IH; [now apply inv_step|exact H2].
 Qed.
 
-Lemma inv_init : inv init_state. Proof. split; cbn; lia. Qed.
+Lemma inv_init : inv vm_init. Proof. split; cbn; lia. Qed.
 
 (* fresh allocation: the identifiers handed to a new group lie above every variable mentioned so far *)
-Theorem fresh_allocation f st g st' off : inv st -> step f st (NewGroup g) = (st', Allocated off) ->
-  off = numvar st /\
-  (forall c l, In c (clauses st) -> In l c -> Z.abs l <= off) /\
-  (forall x, off + 1 <= x -> max_var (clauses st) < x).
+Theorem fresh_allocation f st g st' off : inv st -> vm_step f st (OpNewGroup g) = (st', VmAllocated off) ->
+  off = st_numvar st /\
+  (forall c l, In c (st_clauses st) -> In l c -> Z.abs l <= off) /\
+  (forall x, off + 1 <= x -> max_var (st_clauses st) < x).
 Proof.
-  intros [H0 H1] H. cbn [step] in H. destruct (create (fixD2 f) g); try (injection H; discriminate).
+  intros [H0 H1] H. cbn [vm_step] in H. destruct (vg_create (fixD2 f) g); try (injection H; discriminate).
   apply add_group_facts in H as [_ [_ [[E _]|[E _]]]]; [discriminate|]. injection E as E.
   split; [lia|]. split.
   - intros c l Hc Hl. pose proof (max_var_bound _ _ _ Hc Hl). lia.
   - intros x Hx. lia.
 Qed.
 
-Theorem fresh_in_history f ops g st' off : ops_ok f init_state ops ->
-  step f (run f init_state ops) (NewGroup g) = (st', Allocated off) ->
-  forall c l, In c (clauses (run f init_state ops)) -> In l c -> Z.abs l <= off.
+Theorem fresh_in_history f ops g st' off : ops_ok f vm_init ops ->
+  vm_step f (vm_run f vm_init ops) (OpNewGroup g) = (st', VmAllocated off) ->
+  forall c l, In c (st_clauses (vm_run f vm_init ops)) -> In l c -> Z.abs l <= off.
 Proof.
-  intros Hok H. pose proof (inv_run f ops init_state inv_init Hok) as Hi.
+  intros Hok H. pose proof (inv_run f ops vm_init inv_init Hok) as Hi.
   now destruct (fresh_allocation f _ g st' off Hi H) as [_ [F _]].
 Qed.
 
@@ -169,9 +169,9 @@ Proof.
   destruct H as [H1 [H2 H3]]. apply IH in H3. lia.
 Qed.
 
-Lemma created_size_nonneg f g : create f g = Created -> 0 <= gsize (g_shape g).
+Lemma created_size_nonneg f g : vg_create f g = Created -> 0 <= gsize (g_shape g).
 Proof.
-  unfold create. destruct (fmt_ok _ _); cbn [negb]; [|discriminate].
+  unfold vg_create. destruct (fmt_ok _ _); cbn [negb]; [|discriminate].
   destruct (g_shape g) as [|ranges|kind n k|adj R|succ b|adj|n m|n m]; intros H; cbn [gsize shape_bip]; try apply bip_size_nonneg; try lia.
   - destruct ranges as [|r t]; [discriminate|]. cbn [length Nat.eqb] in H.
     destruct (forallb _ (r :: t)) eqn:E; [|discriminate]. apply block_size_nonneg.
@@ -181,32 +181,32 @@ Proof.
   - destruct (Z.ltb_spec m 1); destruct (Z.ltb_spec n 1); cbn [orb] in H; try discriminate. pose proof (bitlength_nonneg m). nia.
 Qed.
 
-Definition op_wf (o : op) : Prop := match o with NewGroup g => graph_wf (g_shape g) | _ => True end.
+Definition op_wf (o : op) : Prop := match o with OpNewGroup g => graph_wf (g_shape g) | _ => True end.
 Definition layout (st : vstate) : Prop :=
-  0 <= numvar st /\ groups_sorted 0 (groups st) (numvar st) /\ Forall (fun og => shape_wf (g_shape (snd og))) (groups st).
+  0 <= st_numvar st /\ groups_sorted 0 (st_groups st) (st_numvar st) /\ Forall (fun og => shape_wf (g_shape (snd og))) (st_groups st).
 
-Theorem layout_step f st o : layout st -> op_wf o -> layout (fst (step f st o)).
+Theorem layout_step f st o : layout st -> op_wf o -> layout (fst (vm_step f st o)).
 Proof.
-  intros [H0 [H1 H2]] Hw. destruct o as [g|c chk|k]; cbn [step].
-  - destruct (create (fixD2 f) g) eqn:C; cbn [fst]; try (repeat split; assumption).
-    destruct (add_variable_group st (numvar st) g) as [st' out] eqn:E. apply add_group_facts in E as [Ec [En [[_ ->]|[_ [Eg Es]]]]]; cbn [fst].
+  intros [H0 [H1 H2]] Hw. destruct o as [g|c chk|k]; cbn [vm_step].
+  - destruct (vg_create (fixD2 f) g) eqn:C; cbn [fst]; try (repeat split; assumption).
+    destruct (add_variable_group st (st_numvar st) g) as [st' out] eqn:E. apply add_group_facts in E as [Ec [En [[_ ->]|[_ [Eg Es]]]]]; cbn [fst].
     + repeat split; assumption.
     + pose proof (created_size_nonneg _ _ C) as S. unfold layout. rewrite Eg. split; [lia|]. split.
       * eapply groups_sorted_snoc; [exact H1|lia|exact S|]. destruct Es as [[Z1 Z2]|[Z1 [Z2 Z3]]]; lia.
       * apply Forall_app. split; [exact H2|]. constructor; [|constructor]. cbn [snd]. eapply created_wf; eauto.
-  - destruct chk; [destruct (lits_ok c); [|destruct (fixD34 f)]|]; cbn [fst]; unfold layout; cbn [numvar groups]; repeat split; try assumption; try lia.
+  - destruct chk; [destruct (lits_ok c); [|destruct (fixD34 f)]|]; cbn [fst]; unfold layout; cbn [st_numvar st_groups]; repeat split; try assumption; try lia.
     eapply groups_sorted_weaken; eauto. lia.
-  - destruct (Z.ltb_spec k 0); cbn [fst]; unfold layout; cbn [numvar groups]; repeat split; try assumption; try lia.
+  - destruct (Z.ltb_spec k 0); cbn [fst]; unfold layout; cbn [st_numvar st_groups]; repeat split; try assumption; try lia.
     eapply groups_sorted_weaken; eauto. lia.
 Qed.
 
-Theorem layout_run f : forall ops st, layout st -> Forall op_wf ops -> layout (run f st ops).
+Theorem layout_run f : forall ops st, layout st -> Forall op_wf ops -> layout (vm_run f st ops).
 Proof.
   induction ops as [|o t IH]; intros st Hl Hw; [exact Hl|].
-  inversion Hw as [|? ? W1 W2]; subst. unfold run. cbn [fold_left]. apply IH; [now apply layout_step|exact W2].
+  inversion Hw as [|? ? W1 W2]; subst. unfold vm_run. cbn [fold_left]. apply IH; [now apply layout_step|exact W2].
 Qed.
 
-Lemma layout_init : layout init_state.
+Lemma layout_init : layout vm_init.
 Proof. unfold layout. cbn. repeat split; try lia. constructor. Qed.
 
 (* ---------- labels ---------- *)
@@ -228,11 +228,11 @@ Proof.
 Qed.
 
 Lemma labels_of_group_range dflt off g t : 0 <= off -> shape_wf (g_shape g) ->
-  map (label_of_groups dflt ((off, g) :: t)) (zrange (off + 1) (off + gsize (g_shape g) + 1)) = labels g.
+  map (label_of_groups dflt ((off, g) :: t)) (zrange (off + 1) (off + gsize (g_shape g) + 1)) = vg_labels g.
 Proof.
   intros Hoff Hw. pose proof (all_group_laws off _ Hoff Hw) as L.
-  rewrite (map_ext_in _ (fun v => match to_index off (g_shape g) v with Some i => label_of_index g i | None => EmptyString end)).
-  - rewrite <- (map_map (to_index off (g_shape g)) (fun o => match o with Some i => label_of_index g i | None => EmptyString end)).
+  rewrite (map_ext_in _ (fun v => match vg_to_index off (g_shape g) v with Some i => label_of_index g i | None => EmptyString end)).
+  - rewrite <- (map_map (vg_to_index off (g_shape g)) (fun o => match o with Some i => label_of_index g i | None => EmptyString end)).
     rewrite (g_unrank_all _ _ L), map_map. reflexivity.
   - intros v Hv. apply in_zrange in Hv. cbn [label_of_groups].
     destruct (Z.leb_spec (off + 1) v); [|lia]. destruct (Z.leb_spec v (off + gsize (g_shape g))); [|lia]. reflexivity.
@@ -245,8 +245,8 @@ Proof.
   now rewrite andb_false_r.
 Qed.
 
-Lemma single_size g : is_single g = true -> gsize (g_shape g) = 1 /\ labels g = [label_of_index g []].
-Proof. unfold is_single, labels. destruct (g_shape g); try discriminate. intros _. split; reflexivity. Qed.
+Lemma single_size g : is_single g = true -> gsize (g_shape g) = 1 /\ vg_labels g = [label_of_index g []].
+Proof. unfold is_single, vg_labels. destruct (g_shape g); try discriminate. intros _. split; reflexivity. Qed.
 
 (* the list the code produces is the list of the names of variables varid .. endv *)
 Theorem labels_loop_spec fixD3 dflt : forall gs varid endv, 1 <= varid ->
@@ -278,7 +278,7 @@ Proof.
       rewrite zrange_cons by lia. cbn [map]. f_equal.
       * cbn [label_of_groups]. rewrite Sz. destruct (Z.leb_spec (off + 1) varid); [|lia]. destruct (Z.leb_spec varid (off + 1)); [|lia].
         cbn [andb]. unfold is_single in B1. destruct (g_shape g) eqn:Eg; try discriminate.
-        unfold to_index. cbn [gsize]. rewrite Z.abs_eq by lia.
+        unfold vg_to_index. cbn [gsize]. rewrite Z.abs_eq by lia.
         destruct (Z.leb_spec (off + 1) varid); [|lia]. destruct (Z.leb_spec varid (off + 1)); [|lia]. reflexivity.
       * rewrite IH; [|lia| | |].
         -- apply map_ext_in. intros v Hv'. apply in_zrange in Hv'. symmetry. apply label_of_groups_above. lia.
@@ -301,21 +301,21 @@ Proof.
 Qed.
 
 Definition names_of_variables (dflt : list string) (st : vstate) : list string :=
-  map (label_of dflt st) (zrange 1 (numvar st + 1)).
+  map (vg_label_of dflt st) (zrange 1 (st_numvar st + 1)).
 
 Theorem labels_aligned_layout fixD3 dflt st : layout st ->
-  fixD3 = true \/ singles_tight 0 (groups st) = true ->
+  fixD3 = true \/ singles_tight 0 (st_groups st) = true ->
   all_variable_labels fixD3 dflt st = names_of_variables dflt st.
 Proof.
-  intros [H0 [H1 H2]] Ht. unfold all_variable_labels, names_of_variables, label_of.
+  intros [H0 [H1 H2]] Ht. unfold all_variable_labels, names_of_variables, vg_label_of.
   apply labels_loop_spec; [lia|exact H1|exact H2|exact Ht].
 Qed.
 
 (* for every history: with the repaired enumeration always, with the code as it is
    when no singleton variable follows anonymous variables *)
 Theorem labels_aligned_history f fixD3 dflt ops : Forall op_wf ops ->
-  fixD3 = true \/ singles_tight 0 (groups (run f init_state ops)) = true ->
-  all_variable_labels fixD3 dflt (run f init_state ops) = names_of_variables dflt (run f init_state ops).
+  fixD3 = true \/ singles_tight 0 (st_groups (vm_run f vm_init ops)) = true ->
+  all_variable_labels fixD3 dflt (vm_run f vm_init ops) = names_of_variables dflt (vm_run f vm_init ops).
 Proof. intros Hw Ht. apply labels_aligned_layout; [apply layout_run; [apply layout_init|exact Hw]|exact Ht]. Qed.
 
 
@@ -323,9 +323,9 @@ Proof. intros Hw Ht. apply labels_aligned_layout; [apply layout_run; [apply layo
 Lemma groups_sorted_lower gs lo lo' hi : groups_sorted lo gs hi -> lo' <= lo -> groups_sorted lo' gs hi.
 Proof. destruct gs as [|[off g] t]; cbn [groups_sorted]; intros H L; [lia|]. destruct H as [A [B C]]. split; [lia|auto]. Qed.
 
-Lemma labels_len g : shape_wf (g_shape g) -> len (labels g) = gsize (g_shape g).
+Lemma labels_len g : shape_wf (g_shape g) -> len (vg_labels g) = gsize (g_shape g).
 Proof.
-  intros Hw. unfold labels. rewrite len_map.
+  intros Hw. unfold vg_labels. rewrite len_map.
   apply (g_size 0 (g_shape g)). apply all_group_laws; [lia|exact Hw].
 Qed.
 
@@ -349,22 +349,22 @@ Proof.
 Qed.
 
 Theorem labels_length_history f fixD3 dflt ops : Forall op_wf ops ->
-  len (all_variable_labels fixD3 dflt (run f init_state ops)) = numvar (run f init_state ops).
+  len (all_variable_labels fixD3 dflt (vm_run f vm_init ops)) = st_numvar (vm_run f vm_init ops).
 Proof.
-  intros Hw. destruct (layout_run f ops init_state layout_init Hw) as [H0 [H1 H2]].
+  intros Hw. destruct (layout_run f ops vm_init layout_init Hw) as [H0 [H1 H2]].
   unfold all_variable_labels. rewrite labels_loop_len; [lia|lia|exact H1|exact H2].
 Qed.
 
 (* ---------- the faithful model does NOT align names (DESIGN D3) ---------- *)
-Definition hist_D3 : list op := [RaiseNumvar 3; NewGroup (mkgroup Single ["X"%string])].
+Definition hist_D3 : list op := [OpRaiseNumvar 3; OpNewGroup (mkgroup GSingle ["X"%string])].
 
 Lemma labels_D3_as_is :
-  all_variable_labels false ["x"%string; ""%string] (run as_is init_state hist_D3) = ["X"; "x2"; "x3"; "x4"]%string /\
-  names_of_variables ["x"%string; ""%string] (run as_is init_state hist_D3) = ["x1"; "x2"; "x3"; "X"]%string.
+  all_variable_labels false ["x"%string; ""%string] (vm_run as_is vm_init hist_D3) = ["X"; "x2"; "x3"; "x4"]%string /\
+  names_of_variables ["x"%string; ""%string] (vm_run as_is vm_init hist_D3) = ["x1"; "x2"; "x3"; "X"]%string.
 Proof. vm_compute. split; reflexivity. Qed.
 
 Theorem labels_refuted : exists ops dflt, Forall op_wf ops /\
-  all_variable_labels false dflt (run as_is init_state ops) <> names_of_variables dflt (run as_is init_state ops).
+  all_variable_labels false dflt (vm_run as_is vm_init ops) <> names_of_variables dflt (vm_run as_is vm_init ops).
 Proof.
   exists hist_D3, ["x"%string; ""%string]. split.
   - repeat constructor.
@@ -372,20 +372,20 @@ Proof.
 Qed.
 
 (* new_combinations_with_replacement cannot be used at all (DESIGN D2) *)
-Theorem combrepl_crash_as_is n k fmt st : 0 <= n -> 0 <= k -> fmt_ok (Words WCombRepl n k) fmt = true ->
-  step as_is st (NewGroup (mkgroup (Words WCombRepl n k) fmt)) = (st, Crash).
+Theorem combrepl_crash_as_is n k fmt st : 0 <= n -> 0 <= k -> fmt_ok (GWords WCombRepl n k) fmt = true ->
+  vm_step as_is st (OpNewGroup (mkgroup (GWords WCombRepl n k) fmt)) = (st, VmCrash).
 Proof.
-  intros Hn Hk Hf. cbn [step]. unfold create. cbn [g_shape g_fmt]. rewrite Hf. cbn [negb].
+  intros Hn Hk Hf. cbn [vm_step]. unfold vg_create. cbn [g_shape g_fmt]. rewrite Hf. cbn [negb].
   destruct (Z.ltb_spec n 0); [lia|]. destruct (Z.ltb_spec k 0); [lia|]. reflexivity.
 Qed.
 
 (* a checked insertion that the code rejects has already stored the clause:
    without the side condition the invariant and freshness fail *)
 Theorem inv_rejected_clause_refuted : exists ops st' off,
-  step as_is (run as_is init_state ops) (NewGroup (mkgroup Single ["Y"%string])) = (st', Allocated off) /\
-  exists c l, In c (clauses (run as_is init_state ops)) /\ In l c /\ off + 1 <= Z.abs l.
+  vm_step as_is (vm_run as_is vm_init ops) (OpNewGroup (mkgroup GSingle ["Y"%string])) = (st', VmAllocated off) /\
+  exists c l, In c (st_clauses (vm_run as_is vm_init ops)) /\ In l c /\ off + 1 <= Z.abs l.
 Proof.
-  exists [AddClause [7; 0] true]. eexists. exists 0. split; [vm_compute; reflexivity|].
+  exists [OpAddClause [7; 0] true]. eexists. exists 0. split; [vm_compute; reflexivity|].
   exists [7; 0], 7. vm_compute. intuition discriminate.
 Qed.
 
@@ -393,32 +393,32 @@ Qed.
 Section Wrap.
   Context (off : Z) (s : shape) (Hoff : 0 <= off) (Hw : shape_wf s).
   Let L := all_group_laws off s Hoff Hw.
-  Lemma w_size : len (indices s) = gsize s. Proof. exact (g_size off s L). Qed.
-  Lemma w_enum : map (to_id off s) (indices s) = map Some (zrange (off + 1) (off + gsize s + 1)). Proof. exact (g_enum off s L). Qed.
-  Lemma w_index_of_id i x : In i (indices s) -> to_id off s i = Some x ->
-    to_index off s x = Some i /\ to_index off s (- x) = Some i /\ off + 1 <= x <= off + gsize s.
+  Lemma w_size : len (vg_indices s) = gsize s. Proof. exact (g_size off s L). Qed.
+  Lemma w_enum : map (vg_to_id off s) (vg_indices s) = map Some (zrange (off + 1) (off + gsize s + 1)). Proof. exact (g_enum off s L). Qed.
+  Lemma w_index_of_id i x : In i (vg_indices s) -> vg_to_id off s i = Some x ->
+    vg_to_index off s x = Some i /\ vg_to_index off s (- x) = Some i /\ off + 1 <= x <= off + gsize s.
   Proof. exact (g_index_of_id off s L i x). Qed.
-  Lemma w_id_of_index l i : to_index off s l = Some i -> In i (indices s) /\ to_id off s i = Some (Z.abs l).
+  Lemma w_id_of_index l i : vg_to_index off s l = Some i -> In i (vg_indices s) /\ vg_to_id off s i = Some (Z.abs l).
   Proof. exact (g_id_of_index off s L l i). Qed.
-  Lemma w_to_index_none l : to_index off s l = None <-> ~ (off + 1 <= Z.abs l <= off + gsize s).
+  Lemma w_to_index_none l : vg_to_index off s l = None <-> ~ (off + 1 <= Z.abs l <= off + gsize s).
   Proof. exact (g_to_index_none off s L l). Qed.
-  Lemma w_to_id_some i x : to_id off s i = Some x ->
-    In (canon s i) (indices s) /\ to_index off s x = Some (canon s i) /\ off + 1 <= x <= off + gsize s.
+  Lemma w_to_id_some i x : vg_to_id off s i = Some x ->
+    In (canon s i) (vg_indices s) /\ vg_to_index off s x = Some (canon s i) /\ off + 1 <= x <= off + gsize s.
   Proof. exact (g_to_id_some off s L i x). Qed.
-  Lemma w_to_id_rejects i : ~ In (canon s i) (indices s) -> to_id off s i = None.
+  Lemma w_to_id_rejects i : ~ In (canon s i) (vg_indices s) -> vg_to_id off s i = None.
   Proof. exact (g_to_id_rejects off s L i). Qed.
-  Lemma w_nodup : NoDup (indices s). Proof. exact (g_nodup off s L). Qed.
-  Lemma w_unrank_all : map (to_index off s) (zrange (off + 1) (off + gsize s + 1)) = map Some (indices s).
+  Lemma w_nodup : NoDup (vg_indices s). Proof. exact (g_nodup off s L). Qed.
+  Lemma w_unrank_all : map (vg_to_index off s) (zrange (off + 1) (off + gsize s + 1)) = map Some (vg_indices s).
   Proof. exact (g_unrank_all off s L). Qed.
 End Wrap.
 
-Lemma names_nth dflt st i : 1 <= i <= numvar st -> znth (i - 1) (names_of_variables dflt st) = Some (label_of dflt st i).
+Lemma names_nth dflt st i : 1 <= i <= st_numvar st -> znth (i - 1) (names_of_variables dflt st) = Some (vg_label_of dflt st i).
 Proof.
   intros H. unfold names_of_variables. rewrite znth_map, znth_zrange by lia. cbn [option_map]. f_equal. f_equal. lia.
 Qed.
 
 Theorem labels_nth_history f fixD3 dflt ops i : Forall op_wf ops ->
-  fixD3 = true \/ singles_tight 0 (groups (run f init_state ops)) = true ->
-  1 <= i <= numvar (run f init_state ops) ->
-  znth (i - 1) (all_variable_labels fixD3 dflt (run f init_state ops)) = Some (label_of dflt (run f init_state ops) i).
+  fixD3 = true \/ singles_tight 0 (st_groups (vm_run f vm_init ops)) = true ->
+  1 <= i <= st_numvar (vm_run f vm_init ops) ->
+  znth (i - 1) (all_variable_labels fixD3 dflt (vm_run f vm_init ops)) = Some (vg_label_of dflt (vm_run f vm_init ops) i).
 Proof. intros Hw Ht Hi. rewrite labels_aligned_history by assumption. now apply names_nth. Qed.
